@@ -254,6 +254,31 @@ def _worker(modname, tier, seeds, want_samples):
     return out
 
 
+def _worker_agg(modname, tier, seeds, want_samples):
+    """per-chunk aggregate (keeps IPC and the parent's memory small for million-run batches)"""
+    recs = _worker(modname, tier, seeds, want_samples)
+    agg = {"n": len(recs), "distinct": {}, "faults": {}, "probes": {}, "sigs": set(), "states": set(),
+           "classes": {}, "sim_hours": 0, "special": [], "first": None}
+    for r in recs:
+        if agg["first"] is None:
+            agg["first"] = {"seed": r["seed"], "digest": r.get("digest")}
+        if r.get("nontrivial") and not r.get("harness"):
+            agg["distinct"].setdefault(r["digest"], r["seed"])
+        for k, n in r.get("faults", {}).items():
+            agg["faults"][k] = agg["faults"].get(k, 0) + n
+        for k, n in r.get("probes", {}).items():
+            agg["probes"][k] = agg["probes"].get(k, 0) + n
+        if r.get("sig"):
+            agg["sigs"].add(r["sig"])
+        agg["states"].update(r.get("state_sigs", []))
+        if r.get("cls"):
+            agg["classes"][r["cls"]] = agg["classes"].get(r["cls"], 0) + 1
+        agg["sim_hours"] += r.get("sim_hours", 0)
+        if r.get("harness") or r.get("violations") or "scenario" in r:
+            agg["special"].append(r)
+    return agg
+
+
 # -------------------------------------------------------------------------- shrink
 def shrink(mod, tier, tape_rec, key, budget=250, log=None, want_sig=None):
     """Reduce the tape while the same violation key reappears.  Returns
@@ -337,10 +362,35 @@ def run_batch(modname, tier, base_seed, runs=None, workers=None, wall_cap=None,
     chunk = max(1, min(getattr(mod, "CHUNK", 100), runs // (workers * 4) or 1))
     chunks = [seeds[i:i + chunk] for i in range(0, len(seeds), chunk)]
     want_samples = set(seeds[:3])
-    recs = []
+    n_runs = 0
+    first = None
+    special = []
+    distinct, faults, probes, classes = {}, {}, {}, {}
+    sigs, states = set(), set()
+    sim_hours = 0
     stopped_early = False
     harness_errors = []
     ctx = mp.get_context("fork")
+
+    def fold(agg):
+        nonlocal n_runs, first, sim_hours
+        n_runs += agg["n"]
+        if agg["first"] is not None and (first is None or agg["first"]["seed"] < first["seed"]):
+            first = agg["first"]
+        for d, sd in agg["distinct"].items():
+            if d not in distinct or sd < distinct[d]:
+                distinct[d] = sd
+        for k, n in agg["faults"].items():
+            faults[k] = faults.get(k, 0) + n
+        for k, n in agg["probes"].items():
+            probes[k] = probes.get(k, 0) + n
+        for k, n in agg["classes"].items():
+            classes[k] = classes.get(k, 0) + n
+        sigs.update(agg["sigs"])
+        states.update(agg["states"])
+        sim_hours += agg["sim_hours"]
+        special.extend(agg["special"])
+
     with ProcessPoolExecutor(max_workers=workers, mp_context=ctx) as ex:
         pending = {}
         it = iter(chunks)
@@ -349,7 +399,7 @@ def run_batch(modname, tier, base_seed, runs=None, workers=None, wall_cap=None,
                 c = next(it)
             except StopIteration:
                 return False
-            pending[ex.submit(_worker, modname, tier, c, want_samples)] = c
+            pending[ex.submit(_worker_agg, modname, tier, c, want_samples)] = c
             return True
         for _ in range(workers * 2):
             if not submit_next():
@@ -358,19 +408,19 @@ def run_batch(modname, tier, base_seed, runs=None, workers=None, wall_cap=None,
             done = next(as_completed(list(pending)))
             c = pending.pop(done)
             try:
-                recs.extend(done.result())
+                fold(done.result())
             except BaseException as e:  # worker died
                 harness_errors.append(f"worker failed on seeds {c[0]}..{c[-1]}: {e!r}")
             if time.time() - t0 > wall_cap:
                 stopped_early = True
             elif not submit_next():
                 pass
-    recs.sort(key=lambda r: r["seed"])
+    special.sort(key=lambda r: r["seed"])
 
     known = load_known(prop)
     known_hit = {}
     unknown = []
-    for r in recs:
+    for r in special:
         if r.get("harness"):
             harness_errors.append(f"seed {r['seed']}: {r['harness']}")
         for v in r.get("violations", []):
@@ -381,34 +431,14 @@ def run_batch(modname, tier, base_seed, runs=None, workers=None, wall_cap=None,
                 unknown.append((r, v))
 
     # ---------------------------------------------------------------- evidence
-    distinct = {}
-    for r in recs:
-        if r.get("nontrivial") and not r.get("harness"):
-            distinct.setdefault(r["digest"], r["seed"])
-    faults, probes = {}, {}
-    for r in recs:
-        for k, n in r.get("faults", {}).items():
-            faults[k] = faults.get(k, 0) + n
-        for k, n in r.get("probes", {}).items():
-            probes[k] = probes.get(k, 0) + n
-    sigs = {r.get("sig") for r in recs if r.get("sig")}
-    states = set()
-    for r in recs:
-        states.update(r.get("state_sigs", []))
-    classes = {}
-    for r in recs:
-        if r.get("cls"):
-            classes[r["cls"]] = classes.get(r["cls"], 0) + 1
     samples = []
-    for r in recs:
-        if "scenario" in r and not r.get("violations") and len(samples) < 3:
+    for r in special:
+        if "scenario" in r and not r.get("violations") and not r.get("harness") and len(samples) < 3:
             samples.append({"seed": r["seed"], "scenario": r["scenario"],
                             "outcome": r.get("outcome", ""), "digest": r["digest"]})
-    if not samples and recs:
-        samples.append({"seed": recs[0]["seed"], "note": "first run of the batch",
-                        "digest": recs[0]["digest"]})
+    if not samples and first is not None:
+        samples.append({"seed": first["seed"], "note": "first run of the batch", "digest": first["digest"]})
     wall = time.time() - t0
-    sim_hours = sum(r.get("sim_hours", 0) for r in recs)
 
     # ------------------------------------------------------- violations: shrink+replay
     reported = []
@@ -450,13 +480,13 @@ def run_batch(modname, tier, base_seed, runs=None, workers=None, wall_cap=None,
     ev = {
         "property_id": prop, "tier": tier, "seed": base_seed, "level": mod.LEVEL,
         "coverage": {
-            "evaluations": len(recs),
+            "evaluations": n_runs,
             "distinct_nontrivial": len(distinct),
             "rule": mod.RULE,
             "samples": samples,
             "runs_requested": runs, "stopped_early_at_wall_cap": stopped_early,
-            "runs_per_hour": int(len(recs) / max(wall, 1e-6) * 3600),
-            "seeds": f"{seeds[0]}..{seeds[min(len(recs), len(seeds)) - 1]} (VERIF_SEED*{SEED_MULT}+i)",
+            "runs_per_hour": int(n_runs / max(wall, 1e-6) * 3600),
+            "seeds": f"{n_runs} of {seeds[0]}..{seeds[-1]} (VERIF_SEED*{SEED_MULT}+i, handed out in order)",
             "simulated_hours_covered": sim_hours,
             "faults_fired": faults, "probes": probes,
             "distinct_schedules": len(sigs), "distinct_abstract_states": len(states),
@@ -472,12 +502,12 @@ def run_batch(modname, tier, base_seed, runs=None, workers=None, wall_cap=None,
         "violations": n_viol,
     }
     if hasattr(mod, "extra_evidence"):
-        ev["coverage"].update(mod.extra_evidence(recs))
+        ev["coverage"].update(mod.extra_evidence(special))
     os.makedirs(os.path.join(ROOT, "evidence"), exist_ok=True)
     with open(os.path.join(ROOT, "evidence", f"{prop}.json"), "w") as f:
         f.write(dumps(ev, indent=1))
 
-    say(f"  runs={len(recs)} distinct_nontrivial={len(distinct)} schedules={len(sigs)} "
+    say(f"  runs={n_runs} distinct_nontrivial={len(distinct)} schedules={len(sigs)} "
         f"states={len(states)} wall={wall:.1f}s faults={faults}")
     if probes:
         say(f"  probes={probes}")
